@@ -220,6 +220,14 @@ Definition unit_out (r : bres) : option (ibroker * out) :=
 
 (** ---- the operations of a PubSub ---- *)
 
+(** `subscribe(key, **kw)`: the generator object it returns gets the next handle *)
+Definition ibsub (ib : ibroker) (k : key) (kw : list (string * bval)) : option (ibroker * out) :=
+  match bmethod broker_subscribe_params broker_subscribe_body [BVKey k] kw ib with
+  | BRet ib' i (OSid s) =>
+    Some (mkIB (ib_map ib') (ib_items ib') (ib_gens ib' ++ [(i, s)]), OSid (length (ib_gens ib')))
+  | _ => None
+  end.
+
 Definition ibstep (ib : ibroker) (o : bop) : option (ibroker * out) :=
   match o with
   | BPublish k v => unit_out (bmethod broker_publish_params broker_publish_body [BVKey k; BVVal v] [] ib)
@@ -231,12 +239,7 @@ Definition ibstep (ib : ibroker) (o : bop) : option (ibroker * out) :=
     | BRaise ib' => Some (ib', OErr)
     | _ => None
     end
-  | BSub k l =>
-    match bmethod broker_subscribe_params broker_subscribe_body [BVKey k] [("last"%string, BVBool l)] ib with
-    | BRet ib' i (OSid s) =>
-      Some (mkIB (ib_map ib') (ib_items ib') (ib_gens ib' ++ [(i, s)]), OSid (length (ib_gens ib')))
-    | _ => None
-    end
+  | BSub k l => ibsub ib k [("last"%string, BVBool l)]
   | BNext g =>
     match nth_error (ib_gens ib) g with
     | Some (i, s) => icall ib i (fun ps => istep ps (Next s))
@@ -416,7 +419,7 @@ Qed.
 
 Lemma btie_sub ib k l : bwf ib -> btied ib (BSub k l).
 Proof.
-  intros Hwf. unfold btied, ibstep, bmethod. cbn.
+  intros Hwf. unfold btied, ibstep, ibsub, bmethod. cbn.
   erewrite (do_call_getitem "key" k); [|reflexivity..].
   destruct (iget_or_create_tie ib k Hwf) as (ib1 & i & -> & Hgc & Hwf1 & Hg1 & Hi). rewrite <- Hgc.
   rewrite item_call_subscribe.
@@ -540,6 +543,16 @@ Proof.
   destruct (nth_error (ib_gens ib) g) as [[i s]|].
   - destruct (icall_tie ib i (Leave s) Hwf) as (ib2 & -> & Hb & Hwf2 & _). exists ib2. auto.
   - exists ib. auto.
+Qed.
+
+(** `PubSub.subscribe(key)` with `last` omitted: the default emitted into [broker_subscribe_params]
+    (and, through the keyword call `subscribe(last=last)`, the default of `cache` in
+    [item_subscribe_params]) must be the model's `BSub k true` *)
+Theorem btie_sub_default ib k : bwf ib ->
+  exists ib', ibsub ib k [] = Some (ib', snd (bstep (babs ib) (BSub k true))) /\
+              babs ib' = fst (bstep (babs ib) (BSub k true)) /\ bwf ib'.
+Proof.
+  intros Hwf. change (ibsub ib k []) with (ibstep ib (BSub k true)). exact (btie_sub ib k true Hwf).
 Qed.
 
 (** ---- the tie of the broker, operation by operation and for whole histories ---- *)
